@@ -45,6 +45,14 @@ CHECKS = {
    text="Expand.tla transcribes buildTreeRecursive (depth-first, storage order, one visited set tested before the depth test, nil child becomes a leaf) and defines the tree properties as operators; TLC evaluates every subset of a 10-tuple universe (chain, diamond, cycles, self-loop, duplicate) x storage orders x depths, checks that the code's design is sound, depth-bounded and expands once, and that a depth-aware visited set would also be complete. Every enumerated case is replayed on the real engine, REST and gRPC with the storage order imposed; the real tree must have only stored edges, expand each set once, respect max-depth, contain only reachable subjects and every subject reachable within the depth; transports must agree with the engine; leaves must equal check decisions when the depth is not binding; nodes with 99..201 children cross the page size.",
    note="The recorded finding (a set first reached at exhausted depth is skipped later) is attributed only when the real tree equals the as-is model tree exactly and the model says the case is incomplete. sqlite only.",
    technique="TLA+ model checking (TLC) + spec-enumerated cases replayed on engine/REST/gRPC", ref="4/C09"),
+ "C08": dict(
+   text="Api.tla specifies how one engine decision is reported by each check transport (status mirroring, always-200, gRPC codes, batch entries) and that a batch is the position-wise map of single checks; TLC checks the mapping's invariants (all transports agree, unknown namespace never allowed, 200 iff allowed / 403 iff denied, never allowed with an error) and, for every batch composition up to a length and every classification/decision assignment, that batch = single position by position. The enumerated batches and 8 tuple kinds are sent over REST GET/POST (mirror and openapi), gRPC Check (both field styles), engine/REST/gRPC batch on 8 stored states and several max-depth values; every reply must be the Api.tla mapping of the engine's own decision.",
+   note="Configuration family 'rw' of CheckCases.tla; batch limit configured to 10; sqlite only.",
+   technique="TLA+ model checking (TLC) + TLC-enumerated requests replayed on every transport", ref="4/C08"),
+ "C13": dict(
+   text="ApiReq.tla defines the request space of all 19 REST and gRPC endpoints as a product of per-field variants (absent, null, wrong type, empty, separator-laden, huge, negative, unknown namespace, incomplete / double / absent subjects, body and batch shapes, arbitrary OPL bytes, wrong method/route) and the predicate every reply must satisfy (handler returns, process lives, no 5xx / Internal, state unchanged on errors and on reads). TLC draws the requests; the harness sends each to the real routers and handler methods with a byte-level dump around it; a shard that dies is restarted without the request that was in flight, which is reported.",
+   note="A seeded sample of each endpoint's product (60 / 600 per endpoint) plus fixed corner requests; gRPC handler methods are called directly (no interceptor chain); messages are kept wire-well-formed (no nil elements in repeated fields).",
+   technique="TLC-generated request space replayed on the real handlers with crash detection", ref="4/C13"),
 }
 NOT_YET = "check not built yet in this session (work in progress, see DESIGN.md section 12)"
 
